@@ -653,11 +653,16 @@ CMR_ERROR CMRtuTest(CMR* cmr, CMR_CHRMAT* matrix, bool* pisTotallyUnimodular, CM
     if (!params->ternary && params->camionFirst)
     {
       CMRdbgMsg(2, "Testing Camion signs before constructing a Seymour decomposition.\n");
-      CMR_CALL( CMRcamionTestSigns(cmr, matrix, pisTotallyUnimodular, psubmatrix,
+      bool isCamionSigned = false;
+      CMR_CALL( CMRcamionTestSigns(cmr, matrix, &isCamionSigned, psubmatrix,
         stats ? &stats->camion : NULL, remainingTime) );
 
-      if (!*pisTotallyUnimodular)
+      /* A positive answer of the Camion test does not determine total unimodularity. */
+      if (!isCamionSigned)
+      {
+        *pisTotallyUnimodular = false;
         return CMR_OKAY;
+      }
     }
 
     double remainingTime = timeLimit - ((clock() - totalClock) * 1.0 / CLOCKS_PER_SEC);
